@@ -17,12 +17,14 @@ ToDaemonSender == {"greeting", "module", "args.server", "args.flags", "args.dot"
 (* ... and to a daemon receiving an upload (writable module) *)
 ToDaemonReceiver == {"greeting", "module", "args.flags", "args.path", "filter.len",
                      "list.flags", "list.namelen", "list.name", "list.size", "list.mtime", "list.mode", "list.linklen", "list.link", "list.end", "list.ioerr",
+                     "list2.flags", "list2.l1", "list2.namelen", "list2.name",       \* a second entry sharing a name prefix with the first (XMIT_SAME_NAME)
                      "data.index", "data.count", "data.blk", "data.s2", "data.rem", "data.toklen", "data.tok", "data.ref", "data.end", "data.sum",
                      "phase1", "phase2"}
 (* fields a hostile SERVER sends to a pulling client *)
 ToClient == {"version", "seed", "mux.tag", "mux.len",
              "list.flags", "list.namelen", "list.name", "list.size", "list.mtime", "list.mode", "list.linklen", "list.link", "list.uid", "list.end",
              "idlist.id", "idlist.len", "idlist.name", "list.ioerr",
+             "list2.flags", "list2.l1", "list2.namelen", "list2.name",
              "data.index", "data.count", "data.blk", "data.s2", "data.rem", "data.toklen", "data.tok", "data.ref", "data.end", "data.sum",
              "phase1", "phase2", "stats"}
 Classes == {"zero", "minus-one", "int-min", "plus-one", "minus-one-rel", "huge", "wrong-type", "truncated-here", "garbage"}
@@ -32,6 +34,8 @@ FieldsOf(v) == CASE v = "daemon-sender" -> ToDaemonSender [] v = "daemon-receive
 (* PAIR mutations: two fields of the same checksum header damaged together (a zero block length is harmless  *)
 (* while a non-zero remainder covers for it, and so on): header groups x two distinct fields x small classes *)
 HeaderGroup(v) == IF v = "daemon-sender" THEN {"req.count", "req.blk", "req.s2", "req.rem"} ELSE {"data.count", "data.blk", "data.s2", "data.rem"}
+(* ... and the two length fields of a name that shares a prefix with its predecessor: each bounds the other *)
+PairGroups(v) == {HeaderGroup(v)} \cup (IF v = "daemon-sender" THEN {} ELSE {{"list2.l1", "list2.namelen"}})
 PairClasses == {"zero", "minus-one", "plus-one", "huge"}
 NoPair == "none"
 
@@ -43,8 +47,8 @@ Displays == {"quiet", "progress"}
 Init == /\ victim \in Victims /\ field \in FieldsOf(victim) /\ class \in Classes
         /\ display \in Displays /\ (display = "progress" => (field2 = NoPair /\ class \in {"zero", "minus-one", "plus-one", "huge", "garbage"}))
         /\ \/ field2 = NoPair /\ class2 = NoPair
-           \/ /\ field \in HeaderGroup(victim) /\ class \in PairClasses
-              /\ field2 \in HeaderGroup(victim) \ {field} /\ class2 \in PairClasses
+           \/ /\ class \in PairClasses /\ class2 \in PairClasses
+              /\ \E G \in PairGroups(victim) : field \in G /\ field2 \in G \ {field}
         /\ pc = "session" /\ alive = TRUE /\ nextOK = "untested"
 (* the damaged field arrives: the session ends - with an error, or (if the damage happens to be harmless) normally *)
 EndSession == /\ pc = "session" /\ pc' \in {"ended-error", "ended-ok"} /\ UNCHANGED <<victim, field, class, field2, class2, display, alive, nextOK>>
